@@ -18,7 +18,9 @@ func init() {
 	core.Register(&core.Part{
 		Name: "C03.chaos", Prop: "C03", Race: true,
 		Cases: func(tier string) int { return tierN(tier, 120, 5000) },
-		Run:   func(tier string, seed uint64, idx int) core.Result { return runChaos("C03", "C03.chaos", tier, seed, idx) },
+		Run: func(tier string, seed uint64, idx int) core.Result {
+			return runChaos("C03", "C03.chaos", tier, seed, idx)
+		},
 		Rule: "seeded schedules (15..30 steps) on 3 or 5 real nodes: write bursts (waited and fire-and-forget), stalled/delayed/cut links (re-delivery of the last appends after reconnect), follower restarts and wipes (snapshot install, chunk sizes 64B..1MiB), leaders isolated with an unreplicated tail and deposed, elections with random majority fence sets and orders, stragglers re-fenced and attached (truncation); " +
 			"online oracle at every ack (in the follower's goroutine, before the ack leaves): the follower's synced log equals the leader's at every newly acknowledged offset (term, payload, timestamp); at quiescence: logs identical up to the commit offset and decoded DB dumps identical on all replicas; " +
 			"non-trivial = >= 2 elections, >= 1 truncation or snapshot and >= 1 cut link; distinct = schedule",
@@ -45,7 +47,9 @@ func runChaos(prop, part, tier string, seed uint64, idx int) core.Result {
 		return r.Done()
 	}
 	defer os.RemoveAll(dir)
-	c, err := rc.New(dir, rf, 1<<16, true)
+	// small log segments in two thirds of the cases, so that truncations and restarts cross segment boundaries
+	segSize := []int32{1 << 10, 1 << 12, 1 << 16}[rng.IntN(3)]
+	c, err := rc.New(dir, rf, segSize, true)
 	if err != nil {
 		r.Inconclusive(err.Error())
 		return r.Done()
@@ -113,9 +117,31 @@ func runChaos(prop, part, tier string, seed uint64, idx int) core.Result {
 			if f := ch.randomFollower(); f != "" && ch.wipe(f) {
 				r.Count("follower_wipes", 1)
 			}
-		case p < 76:
+		case p < 72:
 			ch.rejoinStragglers()
 			ch.refreshAmnesiac()
+		case p < 76:
+			// the Truncate request of the current term reaches a follower a second time (a retry or a network
+			// duplicate), possibly after the follower has received and acknowledged entries beyond that point
+			if f := ch.randomFollower(); f != "" {
+				if req := c.LastTruncateTo(f); req != nil && req.Term == ch.term {
+					fw := c.Node(f).Wal()
+					if fw == nil {
+						break
+					}
+					before := fw.LastOffset()
+					acked, had := ch.ackMon.ackedBy(f, ch.term)
+					res, err := c.Node(f).Truncate(req)
+					r.Count("duplicate_truncates", 1)
+					ch.log("duplicate truncate to %s (term %d, head %d): err=%v", f, req.Term, req.HeadEntryId.Offset, err)
+					if err == nil {
+						r.Count("duplicate_truncates_accepted", 1)
+						if had && res.HeadEntryId.Offset < acked {
+							r.Violate(prop+"/duplicate-truncate-cut-acknowledged-entries", fmt.Sprintf("%s had acknowledged offset %d on a stream of term %d (log end %d); a re-delivered Truncate of the same term cut its log back to %d", f, acked, ch.term, before, res.HeadEntryId.Offset), map[string]any{"schedule": ch.tail(40)})
+						}
+					}
+				}
+			}
 		case p < 86:
 			// depose a leader that holds an unreplicated tail: isolate it, let it take writes, elect among the others
 			if ch.leader != "" {
